@@ -433,6 +433,12 @@ func (mr *msgReader) Read(p []byte) (n int, err error) {
 		p = p[:n]
 		mr.dict.write(p)
 	}
+	if mr.flate && err == io.EOF && !(mr.fin && mr.payloadLength == 0) {
+		// The DEFLATE stream ended in a block marked final before the end of the
+		// message. What follows is padding, see RFC 7692 section 7.2.3.4. It has to
+		// be consumed for the end of the message to be established.
+		err = mr.discardRest()
+	}
 	// Only the final frame having been read in full establishes the end of the message.
 	// An EOF from the transport in any other state means the message was cut short.
 	if mr.fin && mr.payloadLength == 0 && (errors.Is(err, io.EOF) || errors.Is(err, io.ErrUnexpectedEOF) && mr.flate) {
@@ -443,6 +449,19 @@ func (mr *msgReader) Read(p []byte) (n int, err error) {
 		return n, fmt.Errorf("failed to read: %w", err)
 	}
 	return n, nil
+}
+
+// discardRest reads and drops what is left of the frames of the current message.
+// It returns io.EOF once the final frame has been read in full.
+func (mr *msgReader) discardRest() error {
+	var scratch [128]byte
+	for !(mr.fin && mr.payloadLength == 0) {
+		_, err := mr.read(scratch[:])
+		if err != nil {
+			return err
+		}
+	}
+	return io.EOF
 }
 
 func (mr *msgReader) read(p []byte) (int, error) {
